@@ -64,8 +64,27 @@ def rule_trigger_join(ctx: Ctx, prog: Program) -> None:
             # direct stores of this loop's own body only (nested loops are visited on their own)
             if not _event_in_own_body(l, bp, e):
                 continue
+            if not isinstance(e.idx[0], Aff):
+                # a vector store: triggers[dom_indices[vars], p] (|)= ...  -- NumPy evaluates a fancy-indexed in-place operation as
+                # gather / operate / scatter, so with a repeated index (two variables on one shared domain) only the last write survives
+                n += 1
+                if "dom_indices" in repr(e.idx[0]) or "fancy" in repr(e.idx[0]):
+                    ctx.violation("R-TRIGGER-JOIN", fn.path, "Problem.init", "triggers-vector-store", f"{fn.path}:{e.line}",
+                                  "the wake-up table is filled by one fancy-indexed store over all variables of the constraint: when two of them share a "
+                                  "domain the index repeats and NumPy keeps only the last write (even with |=), dropping the events of the others; "
+                                  "accumulate cell by cell (or with np.bitwise_or.at)")
+                continue
             n += 1
             dom = e.idx[0]
+            # is the table indexed with ONE variable of the constraint (an element of its variable list, i.e. something that
+            # depends on a loop over that list nested in the loop over the constraints) or with the whole list at once?
+            its = {x for x in atoms_in(dom) if isinstance(x, tuple) and x[0] == "it"}
+            if len(its) < 2 and any(isinstance(x, tuple) and x[0] in ("init", "hav") and "propagators" in str(x[1] if x[0] == "init" else x[2]) for x in atoms_in(dom)):
+                ctx.violation("R-TRIGGER-JOIN", fn.path, "Problem.init", "triggers-vector-store", f"{fn.path}:{e.line}",
+                              "the wake-up table is filled by one fancy-indexed store over all variables of the constraint (not cell by cell in a loop "
+                              "over them): when two of them share a domain the index repeats and NumPy keeps only the last write (even with |=), "
+                              "dropping the events of the others; accumulate cell by cell (or with np.bitwise_or.at)")
+                continue
             via_table = isinstance(dom, Aff) and any(
                 isinstance(x, tuple) and x[0] in ("init", "hav") and ("dom_indices" in str(x[1] if x[0] == "init" else x[2])) for x in atoms_in(dom)
             )
